@@ -68,7 +68,7 @@ def mutant_summary(log):
 def main():
     rows, st = seed_rows()
     rr = refactor_rows()
-    ms = mutant_summary(sys.argv[1] if len(sys.argv) > 1 else None)
+    ms = mutant_summary(sys.argv[1] if len(sys.argv) > 1 else V + '/validation/mutants.log')
     rev = json.load(open(V + '/mutants/revert_results.json'))
     out = []
     out.append('### 8.4 Seeded defects, hand-written mutants, refactors\n')
